@@ -56,6 +56,10 @@ def step(snap, cfg, forced=None, deviation=None, force_cond=False):
         kind, word = forced if forced is not None else fetch(cpu)
     except RefAbort as ab:
         return 'not-modelled', cpu, dict(why='instruction fetch aborts (prefetch abort is not modelled by the emulator)')
+    except RefUnpredictable as ex:
+        return 'unpredictable', cpu, dict(why='instruction fetch: %s' % ex)
+    except RefNotModelled as ex:
+        return 'not-modelled', cpu, dict(why='instruction fetch: %s' % ex)
     cpu.length = 2 if kind == 't16' else 4
     ctx = S.Ctx(C=cpu.C, in_it=cpu.in_it(), last_it=cpu.last_in_it(), arch=cpu.arch, iset='arm' if kind == 'arm' else 'thumb')
     rk, row, ops = tables()[kind].decode(word, ctx)
